@@ -26,7 +26,8 @@ go test -vet=off -count=1 -run 'Seed|seed|ZZ' "./$(dirname "$target")" 2>&1 | ta
 r_with=${PIPESTATUS[0]}
 rm -f "$target"
 echo "== with change: existing suite"
-out=$(go test -vet=off -count=1 ./... 2>&1); echo "$out" | grep -E '^(--- FAIL|FAIL)' | grep -v 'TestEnum_String' | grep -v '^FAIL$' | grep -v 'ischema/constraint' ; suite_bad=$(echo "$out" | grep -E '^--- FAIL' | grep -vc 'TestEnum_String')
+mv "$seed" /tmp/seed.$$.hold  # keep the demo copy out of ./...
+out=$(go test -vet=off -count=1 ./... 2>&1); mv /tmp/seed.$$.hold "$seed"; echo "$out" | grep -E '^(--- FAIL|FAIL)' | grep -v 'TestEnum_String' | grep -v '^FAIL$' | grep -v 'ischema/constraint' ; suite_bad=$(echo "$out" | grep -E '^--- FAIL' | grep -vc 'TestEnum_String')
 git checkout -q -- .
 echo "RESULT $id: demo_without_rc=$r_without demo_with_rc=$r_with suite_new_failures=$suite_bad"
 if [ "$r_without" = 0 ] && [ "$r_with" != 0 ] && [ "$suite_bad" = 0 ]; then
